@@ -180,11 +180,13 @@ Proof.
   assert (K : forall w', fst (run_view D construct r p w') = w').
   { intros w'. unfold run_view. rewrite Ev.
     destruct v; cbn in He; subst e; destruct Hn as [Hn|Hn]; try discriminate Hn; cbn; auto.
-    - destruct p as [| |[]| | | |]; reflexivity.
-    - destruct p as [| | | | | |[]]; destruct (w_proto w'); reflexivity.
-    - destruct p as [| | | | | |[]]; destruct (w_proto w'); reflexivity.
-    - unfold view_json_to_bin. destruct p; try reflexivity.
-      destruct (sendable _); try reflexivity. destruct (wire_of _ _ _); reflexivity. }
+    - destruct p as [| |[]| | | | |]; reflexivity.
+    - destruct p as [| | | | | |[]|]; destruct (w_proto w'); reflexivity.
+    - destruct p as [| | | | | |[]|]; destruct (w_proto w'); reflexivity.
+    - unfold view_json_to_bin, json_to_bin_core. destruct p; try reflexivity.
+      + destruct (sendable _); try reflexivity. destruct (wire_of _ _ _); reflexivity.
+      + destruct (cap_lookup w'); try reflexivity.
+        destruct (sendable _); try reflexivity. destruct (wire_of _ _ _); reflexivity. }
   unfold YRest.rest_step. cbn.
   destruct m; cbn; try (destruct (method_allowed _ r); cbn; auto; apply run_decos_fst; exact K); auto.
 Qed.
@@ -226,7 +228,7 @@ Definition tracked_live (w : world) (c : nat) : Prop :=
 (** the message the request asks for, as it should appear on the wire *)
 Definition requested_wire (w : world) (q : request) : option wmsg :=
   match effect_of (q_route q), q_payload q with
-  | Some EfSendUpdate, PUpdate m =>
+  | Some EfSendUpdate, PUpdate m | Some EfSendUpdate, PUpdateCap m =>
       option_map WRaw (wire_of construct w (default_local_pref (ibgp w) m))
   | Some EfSendBin, PBin b => Some (WRaw b)
   | Some EfRouteRefresh, PRefresh afi safi res =>
@@ -234,11 +236,10 @@ Definition requested_wire (w : world) (q : request) : option wmsg :=
   | _, _ => None
   end.
 
-(** what a successful send changes besides the output: the per-connection sent counter
-    (send_bin_update counts nothing: C18) *)
+(** what a successful send changes besides the output: the per-connection sent counter *)
 Definition count_sent (e : effect) (c : nat) (w : world) : world :=
   match e with
-  | EfSendUpdate => upd_conn c (on_sent bump_upd) w
+  | EfSendUpdate | EfSendBin => upd_conn c (on_sent bump_upd) w
   | EfRouteRefresh => upd_conn c (on_sent bump_rr) w
   | _ => w
   end.
@@ -270,7 +271,7 @@ Proof.
     destruct (is_pnone p) eqn:En; try discriminate Hstep. cbn in Hstep.
     destruct (st_is (quiet w) StEstablished) eqn:Est; try discriminate Hstep.
     unfold run_view in Hstep. cbn in Hstep.
-    destruct p as [| | | | |b|]; try discriminate Hstep.
+    destruct p as [| | | | |b| |]; try discriminate Hstep.
     destruct b as [|x b]; try discriminate Hstep.
     unfold view_send_bin in Hstep. rewrite Hp' in Hstep.
     cbn [do_event] in Hstep. unfold api_send_bin, with_proto in Hstep.
@@ -286,7 +287,7 @@ Proof.
     destruct (is_pnone p) eqn:En; try discriminate Hstep. cbn in Hstep.
     destruct (st_is (quiet w) StEstablished) eqn:Est; try discriminate Hstep.
     unfold run_view in Hstep. cbn in Hstep.
-    destruct p as [| | | |afi safi res| |]; try discriminate Hstep.
+    destruct p as [| | | |afi safi res| | |]; try discriminate Hstep.
     unfold view_route_refresh in Hstep.
     change (rr_type (quiet w)) with (rr_type w) in Hstep.
     destruct (rr_type w) as [ty|] eqn:Ety; try discriminate Hstep.
@@ -305,19 +306,31 @@ Proof.
     destruct (is_pnone p) eqn:En; try discriminate Hstep. cbn in Hstep.
     destruct (st_is (quiet w) StEstablished) eqn:Est; try discriminate Hstep.
     unfold run_view in Hstep. cbn in Hstep.
-    destruct p as [| | |u| | |]; try discriminate Hstep.
     unfold view_send_update in Hstep.
-    change (ibgp (quiet w)) with (ibgp w) in Hstep.
-    destruct (sendable (default_local_pref (ibgp w) u)); try discriminate Hstep.
-    rewrite Hp' in Hstep.
-    change (wire_of construct (quiet w) (default_local_pref (ibgp w) u))
-      with (wire_of construct w (default_local_pref (ibgp w) u)) in Hstep.
-    destruct (wire_of construct w (default_local_pref (ibgp w) u)) as [b|] eqn:Ew; try discriminate Hstep.
-    cbn [do_event] in Hstep. unfold api_send_update, with_proto in Hstep.
-    rewrite Hp' in Hstep. unfold conn_write in Hstep. rewrite Hc' in Hstep.
-    injection Hstep as <-.
-    exists (WRaw b). vm_compute effect_of. cbn [count_sent option_map].
-    repeat split; auto. apply st_is_est in Est. exact Est.
+    assert (Core : forall u, send_update_core D construct u (quiet w) = (w', ROk) ->
+              exists msg, option_map WRaw (wire_of construct w (default_local_pref (ibgp w) u)) = Some msg /\
+                w_out w' = [OWrite c msg] /\
+                w' = count_sent EfSendUpdate c (emit (OWrite c msg) (quiet w))).
+    { intros u Hu. unfold send_update_core in Hu.
+      change (ibgp (quiet w)) with (ibgp w) in Hu.
+      destruct (sendable (default_local_pref (ibgp w) u)); try discriminate Hu.
+      rewrite Hp' in Hu.
+      change (wire_of construct (quiet w) (default_local_pref (ibgp w) u))
+        with (wire_of construct w (default_local_pref (ibgp w) u)) in Hu.
+      destruct (wire_of construct w (default_local_pref (ibgp w) u)) as [b|] eqn:Ew; try discriminate Hu.
+      cbn [do_event] in Hu. unfold api_send_update, with_proto in Hu.
+      rewrite Hp' in Hu. unfold conn_write in Hu. rewrite Hc' in Hu.
+      injection Hu as <-.
+      exists (WRaw b). cbn [count_sent option_map]. repeat split; auto. }
+    apply st_is_est in Est. change (w_state (quiet w)) with (w_state w) in Est.
+    vm_compute effect_of.
+    destruct p as [| | |u| | | |u]; try discriminate Hstep.
+    + destruct (Core u Hstep) as [msg [A [B C]]]. exists msg. repeat split; auto.
+    + destruct (cap_lookup (quiet w)) as [r|] eqn:El.
+      { exfalso. unfold cap_lookup in El. destruct (w_capr (quiet w)).
+        - injection El as <-. discriminate Hstep.
+        - destruct (cap_has KFourBytesAs _); [discriminate El|]. injection El as <-. discriminate Hstep. }
+      destruct (Core u Hstep) as [msg [A [B C]]]. exists msg. repeat split; auto.
 Qed.
 
 (** the manual routes are exactly the session model's operator events *)
